@@ -566,6 +566,79 @@ func generate(a *Args, rng *Rng, run func(*c06Case), runSeq func([]*c06Case)) {
 			run(c)
 		}
 
+		// ---- 9b. shape of the timestamping revocation validator's answer (checkRevocationResults): fewer / more
+		// results than TSA certificates (TSA a: 2 certificates, TSA b: 3), a nil entry at every position, alone and
+		// next to a revoked / unknown result on either side; a revoked result cut off by a short answer
+		for _, f := range c06Formats {
+			for _, pk := range []string{"a", "b"} {
+				m := 2
+				if pk == "b" {
+					m = 3
+				}
+				shape := func(fam string, edit func(c *c06Case)) {
+					c := valid(rng, false, 1+rng.Intn(3))
+					c.Fam = fam
+					withTSA(rng, c, pk)
+					c.Format = f
+					if rng.Chance(1, 3) {
+						c.Opt = "afterCertExpiry"
+						c.Win[0] = [2]int{-100, -5}
+					}
+					edit(c)
+					run(c)
+				}
+				for short := 1; short <= m; short++ {
+					short := short
+					shape("shape:short answer", func(c *c06Case) { c.Tok.RevShort = short })
+					// the result that is cut off was "revoked" / "unknown"
+					for _, bad := range []int{3, 2} {
+						vec := make([]int, m)
+						vec[m-short] = bad
+						shape("shape:short answer hides a bad result", func(c *c06Case) { c.Tok.Rev, c.Tok.RevShort = vec, short })
+					}
+				}
+				for long := 1; long <= 2; long++ {
+					long := long
+					shape("shape:long answer", func(c *c06Case) { c.Tok.RevLong = long })
+					shape("shape:long answer with a revoked result", func(c *c06Case) {
+						vec := make([]int, m)
+						vec[rng.Intn(m)] = 3
+						c.Tok.Rev, c.Tok.RevLong = vec, long
+					})
+				}
+				for pos := 0; pos < m; pos++ {
+					pos := pos
+					shape("shape:nil entry", func(c *c06Case) {
+						vec := make([]int, m)
+						vec[pos] = 5
+						c.Tok.Rev = vec
+					})
+					for other := 0; other < m; other++ {
+						if other == pos {
+							continue
+						}
+						for _, bad := range []int{3, 2, 1} {
+							vec := make([]int, m)
+							vec[pos], vec[other] = 5, bad
+							shape("shape:nil entry next to another verdict", func(c *c06Case) { c.Tok.Rev = vec })
+						}
+					}
+				}
+				shape("shape:all entries nil", func(c *c06Case) {
+					vec := make([]int, m)
+					for i := range vec {
+						vec[i] = 5
+					}
+					c.Tok.Rev = vec
+				})
+				shape("shape:nil entry in a short answer", func(c *c06Case) {
+					vec := make([]int, m)
+					vec[0] = 5
+					c.Tok.Rev, c.Tok.RevShort = vec, 1
+				})
+			}
+		}
+
 		// ---- 10. histories: ONE verifier instance, several calls whose expected verdict changes
 		histories(rng, runSeq, thorough)
 		namespaces(rng, runSeq, thorough)
@@ -704,6 +777,15 @@ func histories(rng *Rng, runSeq func([]*c06Case), thorough bool) {
 		func(c *c06Case) { okTok(c, "a") },
 		func(c *c06Case) { okTok(c, "a"); c.Tok.RevErr = true },
 		func(c *c06Case) { okTok(c, "a"); c.Tok.Rev = []int{0, 2} },
+		func(c *c06Case) { okTok(c, "a") },
+	})
+	// the shape of the validator's answer
+	seq("tsa revocation answer shape", x, []string{"ca:s", "tsa:a"}, "", []step{
+		func(c *c06Case) { okTok(c, "a") },
+		func(c *c06Case) { okTok(c, "a"); c.Tok.RevShort = 1 },
+		func(c *c06Case) { okTok(c, "a") },
+		func(c *c06Case) { okTok(c, "a"); c.Tok.Rev = []int{0, 5} },
+		func(c *c06Case) { okTok(c, "a"); c.Tok.RevLong = 1 },
 		func(c *c06Case) { okTok(c, "a") },
 	})
 	// the message the token is about: a genuine token moved to another envelope
